@@ -423,3 +423,55 @@ Definition chk_coerce_int (i : ity * option Z * ity) (o : option (option Z)) : b
 (* apply_hard_range over batch lengths: batches as lists of row numbers *)
 Definition chk_hard_range (i : list (list N) * N * N) (o : list (list N)) : bool :=
   let '(bs, s, e) := i in list_eqb (list_eqb N.eqb) (hard_range bs 0 s e) o.
+
+(* ---------------------------------------------------------------- reference evaluator (SQL three-valued logic) *)
+(* The small expression language of the end-to-end arm over integer/boolean columns; a cell is
+   `option Z` (None = NULL).  The harness' brute-force evaluator is compared with this one (stream
+   `eval3`); that DataFusion evaluates filters like this is what the e2e arm tests (not proved). *)
+Inductive cmp := Ceq | Cne | Clt | Cle | Cgt | Cge.
+Inductive expr :=
+| ECmp (c : cmp) (col : nat) (lit : option Z)
+| EAnd (a b : expr)
+| EOr (a b : expr)
+| ENot (a : expr)
+| EIsNull (col : nat)
+| EIn (col : nat) (lits : list (option Z))
+| EBetween (col : nat) (lo hi : option Z).
+
+Definition tv := option bool.   (* None = NULL/UNKNOWN *)
+Definition tv_and (a b : tv) : tv :=
+  match a, b with
+  | Some false, _ | _, Some false => Some false
+  | Some true, Some true => Some true
+  | _, _ => None
+  end.
+Definition tv_or (a b : tv) : tv :=
+  match a, b with
+  | Some true, _ | _, Some true => Some true
+  | Some false, Some false => Some false
+  | _, _ => None
+  end.
+Definition tv_not (a : tv) : tv := option_map negb a.
+Definition cmp_z (c : cmp) (x y : Z) : bool :=
+  match c with
+  | Ceq => Z.eqb x y | Cne => negb (Z.eqb x y)
+  | Clt => Z.ltb x y | Cle => Z.leb x y | Cgt => Z.ltb y x | Cge => Z.leb y x
+  end.
+Definition tv_cmp (c : cmp) (x y : option Z) : tv :=
+  match x, y with Some a, Some b => Some (cmp_z c a b) | _, _ => None end.
+Definition cell (r : list (option Z)) (col : nat) : option Z := nth col r None.
+
+Fixpoint eval3 (e : expr) (r : list (option Z)) : tv :=
+  match e with
+  | ECmp c col lit => tv_cmp c (cell r col) lit
+  | EAnd a b => tv_and (eval3 a r) (eval3 b r)
+  | EOr a b => tv_or (eval3 a r) (eval3 b r)
+  | ENot a => tv_not (eval3 a r)
+  | EIsNull col => Some (match cell r col with None => true | Some _ => false end)
+  | EIn col lits => fold_right (fun l acc => tv_or (tv_cmp Ceq (cell r col) l) acc) (Some false) lits
+  | EBetween col lo hi => tv_and (tv_cmp Cge (cell r col) lo) (tv_cmp Cle (cell r col) hi)
+  end.
+Definition is_true (t : tv) : bool := match t with Some true => true | _ => false end.
+
+Definition tv_eqb (a b : tv) : bool := option_eqb Bool.eqb a b.
+Definition chk_eval3 (i : expr * list (option Z)) (o : tv) : bool := tv_eqb (eval3 (fst i) (snd i)) o.
